@@ -44,4 +44,16 @@ def register(reg):
                              'spec_stable(self, self.pos, self.input.config.eol_comments) and spec_stable(self, self.pos, self.input.config.comments))'],
                          1: ['self.pos >= p', 'self.pos >= old_self.pos', 'self.pos <= self.len', *KEEP,
                              'implies(self.pos == p, spec_stable(self, self.pos, self.input.whitespace_re))']},
-             decreases={0: 'self.len - p', 1: 'self.len - self.pos'})
+             decreases={0: 'self.len - p', 1: 'self.len - self.pos'},
+             assumed_ensures=[('A:next_token-is-a-function', 'self.pos == uf_ws_end(old_self)')])
+    contract(reg, f'{T}:TextLinesCursor.matchre', P, {'self': 'Cursor', 'pattern': 'str'}, ret='Val', modifies=['self'], verify=False,
+             ensures=['implies(uf_re_end_s(old_self.textstr, old_self.pos, pattern) < 0, result is None and self.pos == old_self.pos)',
+                      'implies(uf_re_end_s(old_self.textstr, old_self.pos, pattern) >= 0, result is not None and '
+                      'result == uf_re_token(old_self.textstr, old_self.pos, pattern) and '
+                      'self.pos == min(self.len, uf_re_end_s(old_self.textstr, old_self.pos, pattern)) and self.pos >= old_self.pos)',
+                      *KEEP],
+             note='re.match is external')
+    contract(reg, f'{T}:TextLinesCursor.next', P, {'self': 'Cursor'}, ret='Val', modifies=['self'],
+             ensures=[('property', 'implies(old_self.pos >= old_self.len, result is None and self.pos == old_self.pos)'),
+                      ('property', 'implies(old_self.pos < old_self.len, result == old_self.textstr[old_self.pos] and self.pos == old_self.pos + 1)'),
+                      *KEEP])
